@@ -72,13 +72,6 @@ LstOp(e) ==
   /\ IF e.pan # "" THEN Reject(e, "lst", "panic")
      ELSE IF ~InRange(e.n, e.idx) THEN Reject(e, "lst", "index-out-of-range")
      ELSE UNCHANGED failed
-(* the builder-driven list: see ListRel!OpRangeOK *)
-DynOp(e) ==
-  /\ sl' = [cause |-> CauseAfter(sl.cause, e.op, e.n, e.idx), follow |-> <<>>]
-  /\ IF e.pan # "" THEN Reject(e, "dyn", "panic")
-     ELSE IF ~OpRangeOK(sl.cause, e.op, e.n, e.idx) THEN Reject(e, "dyn", "index-out-of-range")
-     ELSE UNCHANGED failed
-
 (* ---- vxfw/list.Dynamic ------------------------------------------------------ *)
 DynCheck(e) ==
   LET kids == [j \in 1..Len(e.kids) |-> [i |-> e.kids[j][1], row |-> e.kids[j][2], h |-> e.kids[j][3]]] IN
@@ -90,6 +83,13 @@ DynCheck(e) ==
   ELSE IF MustShow(e.sel, sl.follow, e.W, e.H, e.n) /\ ~Visible(kids, e.idx, e.H) THEN Reject(e, "dyn", ShowWhy(e.sel))
   ELSE UNCHANGED failed
 DynDraw(e) == DynCheck(e) /\ sl' = [cause |-> "", follow |-> FollowAfterDraw(e.sel, sl.follow, e.W, e.H, e.n)]
+
+(* the builder-driven list: see ListRel!OpRangeOK *)
+DynOp(e) ==
+  /\ sl' = [cause |-> CauseAfter(sl.cause, e.op, e.n, e.idx), follow |-> <<>>]
+  /\ IF e.pan # "" THEN Reject(e, "dyn", "panic")
+     ELSE IF ~OpRangeOK(sl.cause, e.op, e.n, e.idx) THEN Reject(e, "dyn", "index-out-of-range")
+     ELSE UNCHANGED failed
 
 (* ---- widgets/pager ------------------------------------------------------------ *)
 (* pg-draw: remember what the window of h rows showed; it is judged at the  *)
